@@ -18,6 +18,10 @@ def plan(tier, seed):
     # thousand postings (many levels)
     specs.append({"name": "big-defaults", "kind": "big", "budget_s": 120 if tier == "quick" else 900,
                   "rounds": 1 if tier == "quick" else 6})
+    # every capacity / width parameter LARGER than its default, with a database that the default configuration could not
+    # hold (a constant read from the module defaults instead of the configuration object shows only here)
+    for j in range(3):
+        specs.append({"name": f"beyond-defaults-{j}", "kind": "big", "beyond": j, "rounds": 0, "budget_s": 200})
     for j in range(2 if tier == "quick" else 4):
         specs.append({"name": f"steered-values-{j}", "kind": "steered", "index": j * 3,
                       "budget_s": 14 if tier == "quick" else 240})
@@ -93,6 +97,22 @@ def run_big(spec, acc, ctx):
             acc.add("many_keyword_schemes", scheme)
     if spec.get("many_schemes"):
         return
+    if "beyond" in spec:
+        B = [[("CGKO06.SSE1", {"param_s": 2 ** 17}, [65537 + rng.randrange(40), 2, 1])],
+             [("CJJ14.PiPtr", {"param_B": 128, "param_b": 128, "param_identifier_size": 16}, [128 * 128 + 1, 129, 128]),
+              ("CJJ14.Pi2Lev", {"param_B": 128, "param_b": 128, "param_B_prime": 128, "param_b_prime": 128},
+               [128 * 128 + 1 + rng.randrange(50), 128 * 128, 129, 128, 1]),
+              ("CJJ14.PiPack", {"param_B": 200, "param_identifier_size": 32}, [200 * 3 + 1, 200, 201]),
+              ("CGKO06.SSE2", {"param_l": 40, "param_dictionary_size": 2 ** 17, "param_max_file_size": 2 ** 21,
+                               "param_identifier_size": 16}, [5, 3, 1])],
+             [("CT14.Pi", {"param_k": 48, "param_l": 48, "param_identifier_size": 16}, [2049, 300, 17, 1]),
+              ("ANSS16.Scheme3", {"param_lambda": 48, "param_l": 48, "param_l_prime": 48, "param_identifier_size": 16},
+               [1025, 1024, 33, 1]),
+              ("DP17.Pi", {"param_L": 4, "param_identifier_size": 16}, [4097, 1000, 65, 3, 1]),
+              ("CGKO06.SSE1", {"param_k": 32, "param_l": 40, "param_s": 2 ** 17, "param_identifier_size": 16,
+                               "param_dictionary_size": 2 ** 17}, [300, 40, 1])]]
+        # (PiBas has no parameter that can exceed its default: lambda is the AES key length)
+        plans = B[spec["beyond"]]
     for scheme, over, lens in plans:
         if ctx.out_of_time():
             break
@@ -105,7 +125,7 @@ def run_big(spec, acc, ctx):
         st = sse.Setup(scheme, cfg, db)
         short = gen.SHORT[scheme]
         acc.count("cases")
-        acc.count("big_default_cases")
+        acc.count("beyond_default_cases" if "beyond" in spec else "big_default_cases")
         for c in info.get("pi2lev_cases", []):
             acc.add("pi2lev_cases", c)
         if st.error is not None:
@@ -128,7 +148,7 @@ def run_big(spec, acc, ctx):
                               f"{scheme} default-size database (list lengths {lens}): result of a list of "
                               f"{len(shadow[w])} differs", {"scheme": scheme, "cfg": cfg, "lens": lens})
         acc.add("distinct", sse.case_fp(scheme, "big", shadow))
-        acc.add("big_schemes", scheme)
+        acc.add("beyond_schemes" if "beyond" in spec else "big_schemes", scheme)
 
 
 def run_shard(spec, acc, ctx):
@@ -143,6 +163,13 @@ def run_shard(spec, acc, ctx):
 def replay(case, acc, ctx):
     if case.get("steered"):
         return eng.replay_steered(case, acc, ctx, "present")
+    if "db" not in case and "lens" in case:
+        from vlib import gen
+        case = dict(case)
+        case["db"], _ = gen.db_from_lens(ctx.rng, case["scheme"], case["cfg"], case["lens"], "big-defaults")
+    elif "db" not in case:
+        acc.note("this witness is a whole workload (many keywords on one object); re-run ./check C01 quick")
+        return
     scheme, cfg, db = case["scheme"], case["cfg"], case["db"]
     import copy
     shadow = copy.deepcopy(db)
@@ -165,6 +192,10 @@ def finish(m, tier, seed):
     cov, inc = eng.finish(m, tier, "present", 50)
     cov["default_size_cases"] = m["counters"].get("big_default_cases", 0)
     cov["databases_of_1200_keywords_searched_three_times"] = m["counters"].get("many_keyword_cases", 0)
+    cov["beyond_default_cases"] = m["counters"].get("beyond_default_cases", 0)
+    if len(m["sets"].get("beyond_schemes", [])) < 8:
+        inc.append("the beyond-defaults workloads did not cover eight schemes: "
+                   + str(sorted(m["sets"].get("beyond_schemes", []))))
     if len(m["sets"].get("big_schemes", [])) < 8:
         inc.append("default-size workloads did not cover the schemes")
     return {"coverage": cov, "inconclusive": inc,
